@@ -4,7 +4,7 @@ from ..rules import traps, algebra, status, deadcmp, region
 
 def run(ck):
     P = facts.load()
-    ck.not_decided = ('not decided: pixman_sample_ceil_y/floor_y, edge stepping, additivity of abutting shapes, the triangle decomposition.')
+    ck.not_decided = ('not decided: the values pixman_sample_ceil_y/floor_y return (only the reachability of their saturation tests, C12-R11), 32-bit differences in pixman_edge_init for lines longer than 32768 rows, additivity of abutting shapes, the triangle decomposition.')
     traps.r1_sample_grid(ck, P)
     traps.r7_edge_clamps(ck, P)
     traps.r5_trap_shortcut(ck, P)
